@@ -531,8 +531,7 @@ public:
             return;
         }
         running_.store(false, std::memory_order_release);
-        const auto socket = listen_socket_;
-        listen_socket_ = kInvalidSocket;
+        const NativeSocket socket = listen_socket_.exchange(kInvalidSocket);
 #ifdef _WIN32
         if (socket != kInvalidSocket) {
             ::shutdown(socket, SD_BOTH);
@@ -558,7 +557,7 @@ private:
     StopCallback stop_callback_;
     Metrics metrics_{};
     std::atomic<bool> running_{false};
-    NativeSocket listen_socket_{kInvalidSocket};
+    std::atomic<NativeSocket> listen_socket_{kInvalidSocket};  // closed by stop() while the accept thread uses it
     std::thread accept_thread_;
     std::atomic<bool> transport_stopped_{false};
     std::mutex rate_mutex_;
@@ -621,7 +620,7 @@ private:
 #else
             socklen_t addr_len = sizeof(client_addr);
 #endif
-            const auto client = ::accept(listen_socket_, reinterpret_cast<sockaddr*>(&client_addr), &addr_len);
+            const auto client = ::accept(listen_socket_.load(), reinterpret_cast<sockaddr*>(&client_addr), &addr_len);
             if (client == kInvalidSocket) {
                 if (running_.load(std::memory_order_acquire)) {
                     std::this_thread::sleep_for(std::chrono::milliseconds(50));
